@@ -130,7 +130,9 @@ def run(ctx):
         ctx.ob(R4, ish.qual, f"`{astq.text(r)}` compares all three components", ok,
                "" if ok else "a redirect that changes only the scheme or only the port would count as same origin", node=r)
     txt = astq.text(ish.node)
-    ctx.ob(R4, ish.qual, "the target host passes the same normaliser as the pool's host", "host = _normalize_host(host, scheme=scheme)" in txt)
+    norm_calls = [n for n in astq.walk_fn(ish.node) if isinstance(n, ast.Assign) and isinstance(n.value, ast.Call) and astq.call_text(n.value) == "_normalize_host"
+                  and isinstance(n.targets[0], ast.Name) and n.value.args and astq.text(n.value.args[0]) == n.targets[0].id]
+    ctx.ob(R4, ish.qual, "the target host passes the same normaliser as the pool's host", bool(norm_calls))
     cpi = m.method(f"{CP}.ConnectionPool", "__init__")
     ctx.ob(R4, cpi.qual, "the pool's host is normalised with _normalize_host", "self.host = _normalize_host(host, scheme=self.scheme)" in astq.text(cpi.node))
     pbs = fold.need("urllib3.connection", "port_by_scheme")
